@@ -4,7 +4,10 @@ CONSTANTS MaxFields, EmitCases
 VARIABLES fs, sattr
 
 Marks == {"none", "sel", "ign", "fwd", "tys"}
-Init == fs = <<>> /\ sattr \in {"none", "fwd", "tys"}
+\* a few field lists wider than MaxFields: the selected field in the middle / at the end, behind ignored or unmarked ones
+WideFs == {<<"ign", "ign", "sel">>, <<"none", "sel", "none">>, <<"ign", "none", "ign">>, <<"none", "none", "fwd">>,
+           <<"ign", "tys", "ign">>, <<"sel", "ign", "none">>, <<"ign", "fwd", "ign">>}
+Init == fs \in {<<>>} \cup WideFs /\ sattr \in {"none", "fwd", "tys"}
 Add == Len(fs) < MaxFields /\ \E m \in Marks : fs' = Append(fs, m) /\ UNCHANGED sattr
 Next == Add
 Spec == Init /\ [][Next]_<<fs, sattr>>
